@@ -179,6 +179,11 @@ def run_check(prop, spec, tier, seed, jobs=None):
             if time.time() - t0 > cap:
                 pool.terminate()
                 break
+            # every hang costs seconds of wall time: a handful of them decides the check, the rest adds nothing
+            if sum(len(l) for (pp, rl), l in mine.items() if rl.startswith("hang")) >= 6:
+                agg["extra"]["stopped_early_on_hangs"] = 1
+                pool.terminate()
+                break
     wall_search = time.time() - t0
     # ------------------------------------------------ violation pipeline
     known = load_known()
@@ -230,13 +235,21 @@ def run_check(prop, spec, tier, seed, jobs=None):
 
 def pipeline(p, prop, rule, plan, detail, seed, known, nfile):
     """gate -> minimise -> replay file -> fresh-process verification"""
+    tg = time.time()
     r1 = p.run(plan, "g1")
+    tg = time.time() - tg
     r2 = p.run(plan, "g2")
     if not (has_key(r1, prop, rule) and has_key(r2, prop, rule) and r1.hash == r2.hash):
         return {"status": "nonrepro", "rule": rule}
     budget = [int(os.environ.get("VERIF_SHRINK", "300"))]
+    t_end = time.time() + float(os.environ.get("VERIF_SHRINK_WALL", "120"))
+    if tg > 3:
+        budget[0] = min(budget[0], 12)      # a run that takes seconds (a hang) is reported nearly as found
 
     def pred(cand):
+        if time.time() > t_end:
+            budget[0] = 0
+            return False
         try:
             return has_key(p.run(cand, "s"), prop, rule)
         except Exception:
